@@ -12,7 +12,7 @@ def run(ctx):
     scratch = vlib.scratch_dir("C16")
     env = vlib.scrub_env(scratch=scratch)
     depth = 6 if tier == "quick" else 8
-    deadline = ctx["deadline"] or (300 if tier == "quick" else 1800)
+    deadline = ctx["deadline"] or (300 if tier == "quick" else 3600)
     nsh = vlib.NCPU * 2
     args = [["--depth", depth, "--shard", i, "--nshards", nsh, "--deadline", int(deadline)] for i in range(nsh)]
     res = vlib.run_shards(exe, args, env, timeout=deadline * 1.3 + 120, label="xlife")
